@@ -279,7 +279,7 @@ def build():
     BYTES_ARRAY = "is_array(obj) and not obj.dtype.hasobject"
     p.add(Contract(
         H, "NumpyHasher.save", props=["C08", "C02", "C06"], globals=dict(glob, pickle=lambda i: Opaque("picklemod", None)),
-        params=dict(self=lambda interp: SObj("NumpyHasher", dict(_hash=Opaque("hashobj", None, algo="md5"), coerce_mmap=bool(interp.ctx.choose(2, "coerce_mmap")), np=NPMOD, _saving_array_standin=False,
+        params=dict(self=lambda interp: SObj("NumpyHasher", dict(_hash=Opaque("hashobj", None, algo="md5"), coerce_mmap=bool(interp.ctx.choose(2, "coerce_mmap")), np=NPMOD,
                                                                    _getbuffer=_Fn(lambda i, a, k: Opaque("npbuffer", None, of=a[0])))),
                     obj=np_value),
         calls={"Hasher.save": hasher_base_save, "pickle.dumps": lambda i, a, k: Opaque("pickled", None, of=a[0])},
@@ -294,24 +294,9 @@ def build():
             # a dtype is a leaf like any other: whatever is done to avoid pickle's memo for it, something standing for it has to go into the
             # STREAM at its position - bytes fed straight into the digest have no position, [dtype, 1] and [1, dtype] would hash alike (K50)
             "a_dtype_leaf_keeps_its_position_in_the_stream": "implies(has_class(obj, 'dtype'), len(saved()) == 1)",
-            # (the dtype INSIDE the stand-in of an array has a fixed place there and may be fed to the digest directly; whatever marks that
-            # situation must be over when save returns, or the next standalone dtype would lose its position again)
-            "no_array_stand_in_is_being_saved_any_more": "self._saving_array_standin is False",
             "a_dtype_is_hashed_by_its_own_pickle_not_through_the_memo": "implies(has_class(obj, 'dtype'), any(is_tag(x, 'pickled') and x.of is obj for x in fed()) or "
                                                                         "(len(saved()) == 1 and mentions_pickle_of(saved()[0], obj)))",
         },
-    ))
-
-    # the recursive call the pickler makes for the dtype INSIDE an array's stand-in (flag set by the array branch): its place in the stand-in
-    # is fixed, it is fed to the digest by its own pickle (never through the memo) and the flag is left to the array branch
-    p.add(Contract(
-        H, "NumpyHasher.save", variant="dtype-of-an-array", props=["C08", "C02"], globals=dict(glob, pickle=lambda i: Opaque("picklemod", None)),
-        params=dict(self=lambda interp: SObj("NumpyHasher", dict(_hash=Opaque("hashobj", None, algo="md5"), coerce_mmap=False, np=NPMOD, _saving_array_standin=True,
-                                                                   _getbuffer=_Fn(lambda i, a, k: Opaque("npbuffer", None, of=a[0])))),
-                    obj=lambda interp: Opaque("npdtype", None, isinstance=("dtype",))),
-        calls={"Hasher.save": hasher_base_save, "pickle.dumps": lambda i, a, k: Opaque("pickled", None, of=a[0])},
-        ensures={"hashed_by_its_own_pickle": "any(is_tag(x, 'pickled') and x.of is obj for x in fed()) or (len(saved()) == 1 and mentions_pickle_of(saved()[0], obj))",
-                 "the_flag_is_the_array_branchs_business": "self._saving_array_standin is True"},
     ))
 
     # ---- memoize: str / bytes are never memoised (equal strings at different addresses hash alike); everything else deferred unchanged
